@@ -47,12 +47,14 @@ var CRLBehaviours = []string{
 	"expired-lists-inv-after", "wrong-signer-lists-inv-after", "delta-expired-lists-inv-after",
 	// number / indicator comparisons across octet lengths (255 vs 256, 65535 vs 65536)
 	"delta-ind-gt-longer", "delta-num-lt-shorter", "delta-ind-lt-shorter-ok", "delta-ind-gt-much-longer",
+	// unacceptable lists that say (issuingDistributionPoint) they cover CA certificates only
+	"expired-idp-only-ca", "wrong-signer-idp-only-ca",
 	"delta-no-number", "base-no-number-delta",
 	"fetch-fail",
 }
 
 // CRLHTTPOnly are behaviours that exist only on the HTTP route.
-var CRLHTTPOnly = []string{"http-404", "http-500", "garbage", "empty", "truncated", "delta-unreachable", "delta-garbage", "err", "timeout", "body-err", "redirect-loop", "redirect-endless"}
+var CRLHTTPOnly = []string{"http-404", "http-500", "garbage", "empty", "truncated", "delta-unreachable", "delta-garbage", "err", "timeout", "body-err", "redirect-loop", "redirect-endless", "freshest-ldap-only", "freshest-ldap-and-https"}
 
 // CRLClass gives the reference class of a behaviour.
 func CRLClass(beh string) string {
@@ -187,7 +189,7 @@ func (k *Kit) buildCRL(beh string, slot int) *CRLSet {
 		return &CRLSet{Beh: beh, Class: CRLBad, BaseDER: src.BaseDER, Bundle: src.Bundle}
 	}
 	switch beh {
-	case "fetch-fail", "http-404", "http-500", "err", "timeout", "garbage", "empty", "oversize", "redirect-loop", "redirect-endless":
+	case "fetch-fail", "http-404", "http-500", "err", "timeout", "garbage", "empty", "oversize", "redirect-loop", "redirect-endless", "freshest-ldap-only", "freshest-ldap-and-https":
 		return set
 	}
 	serial := k.Cert.SerialNumber
@@ -235,6 +237,14 @@ func (k *Kit) buildCRL(beh string, slot int) *CRLSet {
 		default:
 			delta.Entries = append(delta.Entries, e)
 			delta.NextUpdate = pki.Past.Add(time.Hour)
+		}
+	case "expired-idp-only-ca", "wrong-signer-idp-only-ca":
+		// IssuingDistributionPoint { onlyContainsCACerts [2] TRUE }, critical
+		base.Extra = append(base.Extra, pkix.Extension{Id: pki.OIDIDP, Critical: true, Value: []byte{0x30, 0x03, 0x82, 0x01, 0xff}})
+		if beh == "expired-idp-only-ca" {
+			base.NextUpdate = pki.Past.Add(time.Hour)
+		} else {
+			base.SignKey = unrelated
 		}
 	case "expired-after-st":
 		base.NextUpdate = SigningTime.Add(24 * time.Hour)
@@ -589,6 +599,16 @@ func (k *Kit) CRLHandlers(net *netsim.Sim, slot int, beh string) {
 	case "body-err":
 		b := k.CRL("clean", slot).BaseDER
 		net.Handle(basePath, mk(netsim.Reply{Body: b, BodyErrAt: len(b) / 2}, "base"))
+		return
+	case "freshest-ldap-only", "freshest-ldap-and-https":
+		// a genuine clean base list whose freshest-CRL extension names only
+		// locations that cannot be fetched over plain HTTP
+		locs := []string{"ldap://ldap." + host + "/cn=delta"}
+		if beh == "freshest-ldap-and-https" {
+			locs = append(locs, "https://"+host+"/delta0.crl")
+		}
+		l := &pki.CRL{IssuerRawName: k.Issuer.RawSubject, SignKey: k.IKey, NextUpdate: pki.Future, Number: big.NewInt(100), FreshestRaw: pki.CDPDER(locs)}
+		net.Handle(basePath, mk(netsim.Reply{Body: pki.BuildCRL(l)}, "base"))
 		return
 	case "delta-unreachable":
 		set = k.CRL("delta-ok", slot)
